@@ -271,6 +271,12 @@ func (s *Store) Bin(op Op, a, b *Term) *Term {
 			return s.rw(a, op, w, 0, 0, a, b)
 		}
 	case OpOr:
+		if r := s.orConcat(a, b); r != nil {
+			return s.rw(r, op, w, 0, 0, a, b)
+		}
+		if r := s.orConcat(b, a); r != nil {
+			return s.rw(r, op, w, 0, 0, a, b)
+		}
 		if a.op == OpConst {
 			a, b = b, a
 		}
@@ -322,6 +328,29 @@ func (s *Store) Bin(op Op, a, b *Term) *Term {
 		}
 	}
 	return s.raw(op, w, 0, "", 0, 0, a, b)
+}
+
+// orConcat recognises (zext(h) << c) | zext(l) with l no wider than c and
+// h filling the rest: the Go idiom uint16(h)<<8 | uint16(l).
+func (s *Store) orConcat(a, b *Term) *Term {
+	if a.op != OpShl || a.a[1].op != OpConst || a.a[0].op != OpZext {
+		return nil
+	}
+	c := int(a.a[1].val)
+	h := a.a[0].a[0]
+	if h.w+c != a.w {
+		return nil
+	}
+	var l *Term
+	switch {
+	case b.op == OpZext && b.a[0].w <= c:
+		l = s.Zext(c, b.a[0])
+	case b.op == OpConst && b.val <= mask(c):
+		l = s.Const(c, b.val)
+	default:
+		return nil
+	}
+	return s.Concat(h, l)
 }
 
 func foldBin(op Op, x, y uint64, w int) (uint64, bool) {
@@ -441,6 +470,16 @@ func (s *Store) Extract(hi, lo int, a *Term) *Term {
 		}
 	case OpExtract:
 		return s.rw(s.Extract(hi+a.p2, lo+a.p2, a.a[0]), OpExtract, w, hi, lo, a)
+	case OpLshr:
+		if a.a[1].op == OpConst && hi+int(a.a[1].val) < a.w {
+			c := int(a.a[1].val)
+			return s.rw(s.Extract(hi+c, lo+c, a.a[0]), OpExtract, w, hi, lo, a)
+		}
+	case OpShl:
+		if a.a[1].op == OpConst && lo >= int(a.a[1].val) {
+			c := int(a.a[1].val)
+			return s.rw(s.Extract(hi-c, lo-c, a.a[0]), OpExtract, w, hi, lo, a)
+		}
 	case OpAnd, OpOr, OpXor:
 		// push a low extract through bitwise ops with a constant side
 		if a.a[1].op == OpConst {
@@ -501,6 +540,12 @@ func (s *Store) Concat(hi, lo *Term) *Term {
 	w := hi.w + lo.w
 	if hi.op == OpConst && lo.op == OpConst {
 		return s.rw(s.Const(w, hi.val<<uint(lo.w)|lo.val), OpConcat, w, 0, 0, hi, lo)
+	}
+	if hi.op == OpExtract && lo.op == OpExtract && hi.a[0] == lo.a[0] && hi.p2 == lo.p1+1 {
+		return s.rw(s.Extract(hi.p1, lo.p2, hi.a[0]), OpConcat, w, 0, 0, hi, lo)
+	}
+	if hi.op == OpConst && hi.val == 0 {
+		return s.rw(s.Zext(w, lo), OpConcat, w, 0, 0, hi, lo)
 	}
 	return s.raw(OpConcat, w, 0, "", 0, 0, hi, lo)
 }
